@@ -4,6 +4,7 @@ package main
 // and one-shot cvc5, a portfolio verdict rule and model extraction via get-value.
 
 import (
+	"strconv"
 	"bufio"
 	"bytes"
 	"fmt"
@@ -29,6 +30,7 @@ type SolverStats struct {
 	Errors  int64
 	Unknown int64
 	AbstractHits int64
+	CacheHits    int64
 	Disagree     int64
 }
 
@@ -621,7 +623,39 @@ func (ss *SolverSet) close() {
 
 // feasible: false only if both z3 versions answer unsat (design 2.2).
 // Returns (feasible, definite) where definite=false means an unknown/error kept the branch.
+// queryCache: feasibility verdicts by the set of asserted (hash-consed) terms. The same sliced
+// question recurs on many paths that differ only in unrelated decisions.
+var queryCache sync.Map
+
+func assertsKey(asserts []*Term) string {
+	ids := make([]int, len(asserts))
+	for i, a := range asserts {
+		ids[i] = a.id
+	}
+	sort.Ints(ids)
+	var sb strings.Builder
+	for _, id := range ids {
+		sb.WriteString(strconv.Itoa(id))
+		sb.WriteByte(',')
+	}
+	return sb.String()
+}
+
+type cachedVerdict struct{ feasible, definite bool }
+
 func (ss *SolverSet) feasible(asserts []*Term, timeoutMs int) (bool, bool) {
+	key := "f:" + assertsKey(asserts)
+	if v, ok := queryCache.Load(key); ok {
+		atomic.AddInt64(&stats.CacheHits, 1)
+		cv := v.(cachedVerdict)
+		return cv.feasible, cv.definite
+	}
+	f, d := ss.feasibleUncached(asserts, timeoutMs)
+	queryCache.Store(key, cachedVerdict{f, d})
+	return f, d
+}
+
+func (ss *SolverSet) feasibleUncached(asserts []*Term, timeoutMs int) (bool, bool) {
 	atomic.AddInt64(&stats.Queries, 1)
 	q := &Query{Asserts: asserts}
 	r1, _ := ss.z3n.run(q, timeoutMs)
